@@ -86,6 +86,25 @@ def _ok(case):
 
 def run(prop, tier, seed, replay=None):
     rp = json.load(open(replay)).get("replay", {}) if replay else {}
+    if rp.get("family") == "topology-md":
+        import topofam
+        out = common.Outcome(prop, tier, seed)
+        proof = common.props_check(prop)
+        known = common.known_signatures(prop)
+        bad = topo_md_oracle(rp["case"], topofam.run_case(rp["case"]))
+        if bad:
+            (out.known_finding(bad[0], known[bad[0]]["what"]) if bad[0] in known else out.violation(bad[0], bad[1], {"case": rp["case"], "family": "topology-md"}))
+        return out.finish(proof, {"evaluations": 1, "distinct_nontrivial": 1, "rule": "replay of one topology history with metadata", "samples": [rp["case"]],
+                                  "traces_validated_against_impl": 0, "disagreements_checked": len(out.violations)})
+    if rp.get("family") == "dataframe-poison":
+        import c16_df
+        out = common.Outcome(prop, tier, seed)
+        proof = common.props_check(prop)
+        known = common.known_signatures(prop)
+        for (sig, msg) in c16_df.check(rp["case"]):
+            (out.known_finding(sig, known[sig]["what"]) if sig in known else out.violation(sig, msg, {"case": rp["case"], "family": "dataframe-poison"}))
+        return out.finish(proof, {"evaluations": 1, "distinct_nontrivial": 1, "rule": "replay of one dataframe poison case", "samples": [rp["case"]],
+                                  "traces_validated_against_impl": 0, "disagreements_checked": len(out.violations)})
     if rp.get("family") in ("async-single", "async-chain", "threaded") or (isinstance(rp.get("case"), dict) and "nodes" not in rp["case"]):
         # a replay recorded by the asynchronous part of this property's check
         import check_async
@@ -171,6 +190,50 @@ def run(prop, tier, seed, replay=None):
     if not proof["ok"]:
         out.violation("%s/proof/%s" % (prop, proof["failing"]), "proof obligation no longer checks: %s" % proof["failing"],
                       {"theorem_or_file": proof["failing"], "log": proof["log"][-3000:]}, no_input=True)
+    topo_cov = None
+    if prop == "C10" and not replay:
+        # metadata under graph edits: the histories of the topology family (connect / disconnect / destroy / drop, also
+        # from inside a delivery) with every emitted value v carrying the metadata [{"v": v}]: whatever a node hands on
+        # must carry exactly the ids of the values it is made of, in order (oracle only)
+        import check_c15, topofam
+        trng = random.Random(seed * 13 + 1010)
+        nt = 300 if tier == "quick" else 3000
+        nft = 0
+        nd = 0
+        for _ in range(nt):
+            tc = check_c15.gen(trng, tier)
+            tc["md"] = True
+            try:
+                tobs = topofam.run_case(tc)
+            except Exception as e:      # noqa
+                out.violation("C10/topology/harness-crash", "topology driver crashed: %r" % (e,), {"case": tc, "family": "topology-md"}, no_input=True)
+                continue
+            bad = topo_md_oracle(tc, tobs)
+            nd += sum(len(o["deliv"]) for o in tobs)
+            if bad:
+                sig, msg = bad
+                if sig in known:
+                    out.known_finding(sig, known[sig]["what"])
+                elif nft < 3:
+                    out.violation(sig, msg, {"case": tc, "family": "topology-md"})
+                    nft += 1
+        topo_cov = {"topology_histories_with_metadata": nt, "deliveries_checked": nd}
+    df_cov = None
+    if prop == "C16" and not replay:
+        # the streaming-dataframe accumulators under a batch on which the aggregation raises (oracle only)
+        import c16_df
+        drng = random.Random(seed * 7 + 1616)
+        dcases = c16_df.cases(drng, 140 if tier == "quick" else 1400)
+        nfd = 0
+        for dc in dcases:
+            for (sig, msg) in c16_df.check(dc):
+                if sig in known:
+                    out.known_finding(sig, known[sig]["what"])
+                elif nfd < 3:
+                    out.violation(sig, msg, {"case": dc, "family": "dataframe-poison"})
+                    nfd += 1
+                break
+        df_cov = {"dataframe_poison_cases": len(dcases), "pipelines": sorted(c16_df.PIPES)}
     async_cov = None
     if prop in ("C05", "C10", "C16") and not replay:
         import check_async
@@ -186,11 +249,39 @@ def run(prop, tier, seed, replay=None):
         "samples": [co[i][0] for i in range(min(2, len(co)))],
         "impl_seconds": round(t_impl, 2),
     }
+    if topo_cov:
+        cov["topology_part"] = topo_cov
+        cov["evaluations"] += topo_cov["topology_histories_with_metadata"]
+    if df_cov:
+        cov["dataframe_part"] = df_cov
+        cov["evaluations"] += df_cov["dataframe_poison_cases"]
+        cov["distinct_nontrivial"] += df_cov["dataframe_poison_cases"]
     if async_cov:
         cov["async_part"] = async_cov
         cov["evaluations"] += async_cov.get("evaluations", 0)
         cov["distinct_nontrivial"] += async_cov.get("distinct_nontrivial", 0)
     return out.finish(proof, cov)
+
+
+def _flat_ints(x):
+    if isinstance(x, (tuple, list)):
+        r = []
+        for y in x:
+            r.extend(_flat_ints(y))
+        return r
+    return [x]
+
+
+def topo_md_oracle(case, obs):
+    kinds = [op[1] for op in case["ops"] if op[0] == "new"]
+    for step, (op, o) in enumerate(zip(case["ops"], obs)):
+        for (s_, d, x), md in zip(o["deliv"], o.get("deliv_md", [])):
+            if md != _flat_ints(x):
+                k = kinds[s_] if 0 <= s_ < len(kinds) else "?"
+                return ("C10/topology/md-mismatch/%s" % k,
+                        "step %d (%s): node %d (%s) handed %r to node %d with metadata ids %r; the values it is made of carry %r"
+                        % (step, op, s_, k, x, d, md, _flat_ints(x)))
+    return None
 
 
 def modelled_case(c):
